@@ -10,6 +10,8 @@ From BV Require Import Proofs.PoolRefuted.
 From BV Require Gen.G_pool_shape.
 From BV Require Import Proofs.PoolSup.
 From BV Require Gen.G_pool_pins.
+From BV Require Model.PoolSys.
+From BV Require Import Model.PoolCrash Proofs.PoolCrashProofs.
 Import ListNotations.
 Open Scope Z_scope.
 
@@ -185,3 +187,133 @@ Proof. vm_compute. reflexivity. Qed.
 Theorem C04_modelled_code_is_the_validated_text : G_pool_pins.modelled_code_of_C04 = true.
 Proof. reflexivity. Qed.
 Print Assumptions C04_modelled_code_is_the_validated_text.
+
+(* ------------------------------------------------------------------------------------------
+   The CLOSED system with worker crashes (Model/PoolCrash.v, Proofs/PoolCrashProofs.v): client,
+   task queue, pipes, live workers (by pid), a crash budget, the clock -- and the open pool model
+   itself as the parent (every parent transition is a [Pool.step]).  [CKill p code] kills a worker
+   that is executing a job; [CTick] is the supervision pass once the dead worker's messages have
+   been drained from the result pipe; [CTickEarly] is the racy pass of the recorded defect
+   C04:owner-gone-but-no-marker.  The statements below are about every schedule without the racy
+   pass: any number of jobs, workers and kills, any exit statuses, any lost-worker timeout (pools
+   without restart limit). *)
+Theorem C04_crash_parent_is_the_pool_model : forall c n y,
+    creach c n y -> exists tr, cpar y = run c tr.
+Proof. exact creach_is_run. Qed.
+Print Assumptions C04_crash_parent_is_the_pool_model.
+
+(* "that job and no other": the job a live worker is running is neither failed nor even marked *)
+Theorem C04_crash_job_of_live_worker_untouched : forall c n,
+    1 <= c_n c -> c_maxr c = None -> forall y p k,
+    creach c n y -> In (p, Some k) (cwk y) ->
+    exited (cpar y) p = false /\ in_pool (cpar y) p = true
+    /\ exists x, get_job (cpar y) k = Some x /\ ready x = false /\ worker_lost x = None.
+Proof. exact job_of_live_worker_not_lost. Qed.
+Print Assumptions C04_crash_job_of_live_worker_untouched.
+
+(* "no job is reported lost unless the worker running it really exited": a marker names the status
+   of the job's own worker, which has exited and has been reaped *)
+Theorem C04_crash_marked_only_if_own_worker_exited : forall c n,
+    1 <= c_n c -> c_maxr c = None -> forall y k x t st,
+    creach c n y -> get_job (cpar y) k = Some x -> ready x = false -> worker_lost x = Some (t, st) ->
+    exists p, In (p, k, st) (clost y) /\ wp x = [p] /\ exited (cpar y) p = true
+              /\ exit_of (cpar y) p = st /\ in_pool (cpar y) p = false /\ t <= now (cpar y).
+Proof. exact marked_only_if_worker_exited. Qed.
+Print Assumptions C04_crash_marked_only_if_own_worker_exited.
+
+(* every resolved job carries its own result, or WorkerLostError naming the exit status of ITS worker *)
+Theorem C04_crash_resolved_own_result_or_own_loss : forall c n,
+    1 <= c_n c -> c_maxr c = None -> forall y k x,
+    creach c n y -> get_job (cpar y) k = Some x -> ready x = true -> resolved_ok y k x.
+Proof. exact resolved_own_result_or_lost. Qed.
+Print Assumptions C04_crash_resolved_own_result_or_own_loss.
+
+(* an unresolved job is in exactly one place (queue, pipe, a live worker, a result message, lost) *)
+Theorem C04_crash_unresolved_in_one_place : forall c n,
+    1 <= c_n c -> c_maxr c = None -> forall y j,
+    creach c n y -> count_occ Z.eq_dec (ctokens y) j = if cunres (cpar y) j then 1%nat else 0%nat.
+Proof. exact unresolved_iff_in_one_place. Qed.
+Print Assumptions C04_crash_unresolved_in_one_place.
+
+(* "the pool starts a replacement": the worker list is at the configured size in every reachable state *)
+Theorem C04_crash_pool_size_kept : forall c n,
+    1 <= c_n c -> c_maxr c = None -> forall y, creach c n y ->
+    Z.of_nat (length (wlist (cpar y))) = nprocs (cpar y) /\ map fst (cwk y) = PoolTick.kept (cpar y)
+    /\ (length (cwk y) + length (unreaped y))%nat = length (wlist (cpar y)).
+Proof. exact pool_size_kept. Qed.
+Print Assumptions C04_crash_pool_size_kept.
+
+(* timing: the pass detects the exit, waits while the grace period runs, fails the job when it is over *)
+Theorem C04_crash_pass_detects : forall n y y' p k st,
+    CInv n y -> crash_step y CTick = Some y' -> In (p, k, st) (clost y) -> in_pool (cpar y) p = true ->
+    exists x', get_job (cpar y') k = Some x' /\ ready x' = false
+               /\ worker_lost x' = Some (now (cpar y), st) /\ in_pool (cpar y') p = false.
+Proof. exact pass_detects. Qed.
+Print Assumptions C04_crash_pass_detects.
+
+Theorem C04_crash_first_due_pass_reports : forall c n y sched y1 y2 k x t0 st x1,
+    1 <= c_n c -> c_maxr c = None -> creach c n y ->
+    get_job (cpar y) k = Some x -> worker_lost x = Some (t0, st) ->
+    no_early sched -> crun y sched = Some y1 ->
+    get_job (cpar y1) k = Some x1 -> ready x1 = false -> crash_step y1 CTick = Some y2 ->
+    (lost_timeout x < now (cpar y1) - t0 ->
+       exists x2, get_job (cpar y2) k = Some x2 /\ ready x2 = true /\ value x2 = Some (PLost st k))
+    /\ (now (cpar y1) - t0 <= lost_timeout x -> get_job (cpar y2) k = Some x1).
+Proof. exact loss_reported_by_the_first_due_pass. Qed.
+Print Assumptions C04_crash_first_due_pass_reports.
+
+(* ... and nothing else ever fails a job as lost: only a pass, only the job's own loss, only when due *)
+Theorem C04_crash_lost_only_by_due_pass : forall n y a y' k x x' st j,
+    CInv n y -> is_early a = false -> crash_step y a = Some y' ->
+    get_job (cpar y) k = Some x -> ready x = false ->
+    get_job (cpar y') k = Some x' -> value x' = Some (PLost st j) ->
+    a = CTick /\ j = k
+    /\ exists t p, worker_lost x = Some (t, st) /\ lost_timeout x < now (cpar y) - t /\ wp x = [p]
+                   /\ exited (cpar y) p = true /\ exit_of (cpar y) p = st /\ in_pool (cpar y) p = false.
+Proof. exact lost_only_by_due_pass. Qed.
+Print Assumptions C04_crash_lost_only_by_due_pass.
+
+(* liveness ("rather than leaving the caller waiting forever", "every other job completes normally"):
+   useful steps strictly decrease a measure; while work is left a useful step that is neither a kill
+   nor the racy pass is enabled; where none is, every one of the n jobs is resolved (own result, or
+   the loss of its own worker), the pool is at size with live workers, every slot is back; and from
+   EVERY reachable state such an end can be reached without further kills *)
+Theorem C04_crash_progress : forall n y, CInv n y -> (0 < cwork y)%nat ->
+    exists a y', is_early a = false /\ is_kill a = false /\ useful y a = true /\ crash_step y a = Some y'.
+Proof. exact cprogress. Qed.
+Print Assumptions C04_crash_progress.
+
+Theorem C04_crash_every_useful_schedule_ends_complete : forall c n bd kills sched y,
+    1 <= c_n c -> c_maxr c = None -> no_early sched -> all_useful (cinit c n bd kills) sched ->
+    crun (cinit c n bd kills) sched = Some y ->
+    (forall a, is_early a = false -> is_kill a = false -> useful y a = true -> crash_step y a = None) ->
+    call_complete n y /\ (length sched <= 6 * n + kills * (grace (init c) + 3))%nat.
+Proof. exact maximal_useful_schedule_completes. Qed.
+Print Assumptions C04_crash_every_useful_schedule_ends_complete.
+
+Theorem C04_crash_no_state_is_doomed : forall c n y,
+    1 <= c_n c -> c_maxr c = None -> creach c n y ->
+    exists sched y', crun y sched = Some y' /\ no_early sched /\ no_kill sched /\ all_useful y sched
+                     /\ cwork y' = 0%nat /\ call_complete n y'.
+Proof. exact creach_can_always_complete. Qed.
+Print Assumptions C04_crash_no_state_is_doomed.
+
+(* slots: a lost job holds its slot until its worker is reaped, a marked job holds none *)
+Theorem C04_crash_slots_account : forall c n,
+    1 <= c_n c -> c_maxr c = None -> forall y, creach c n y -> putlocks (cpar y) = true ->
+    LaxSem.value (sem (cpar y)) + Z.of_nat (slot_holders y) = bound (sem (cpar y))
+    /\ 0 <= LaxSem.value (sem (cpar y)).
+Proof. exact cslots_account. Qed.
+Print Assumptions C04_crash_slots_account.
+
+(* ---- not satisfied by the pinned tree (known finding C04:owner-gone-but-no-marker), in the closed
+   system: ONE racy pass (the dead worker's ACK still in the result pipe) reaches a state from which
+   NO schedule whatsoever resolves the job *)
+Theorem C04_crash_racy_pass_dooms_the_job_refuted :
+  exists c n bd kills sched y k p st,
+    crun (cinit c n bd kills) sched = Some y /\ In CTickEarly sched /\ In (CKill p st) sched
+    /\ (exists x, get_job (cpar y) k = Some x /\ wp x = [p] /\ ready x = false /\ worker_lost x = None)
+    /\ exited (cpar y) p = true /\ exit_of (cpar y) p = st /\ in_pool (cpar y) p = false
+    /\ (forall sched' y', crun y sched' = Some y' -> cunres (cpar y') k = true).
+Proof. exact doomed_by_early_tick. Qed.
+Print Assumptions C04_crash_racy_pass_dooms_the_job_refuted.
